@@ -152,7 +152,10 @@ type K struct {
 	sample bool
 	failed map[string]bool
 	ntKey  string
-	nt     bool
+	// Context is appended to the detail of any violation recorded while it is
+	// set (e.g. the exact input being fed to the library).
+	Context string
+	nt      bool
 }
 
 type kv struct {
@@ -375,8 +378,15 @@ func (k *K) fail(monitor, class, detail string) {
 		return
 	}
 	k.failed[fk] = true
-	if len(detail) > 6000 {
-		detail = detail[:6000] + "…"
+	if k.Context != "" {
+		c := k.Context
+		if len(c) > 3000 {
+			c = c[:3000] + "…"
+		}
+		detail = "context: " + c + "\n" + detail
+	}
+	if len(detail) > 9000 {
+		detail = detail[:9000] + "…"
 	}
 	// cap stored violations per monitor/class in one shard
 	n := 0
